@@ -359,7 +359,7 @@ def stage3R (g : Game P Gen.Move) (cfg : SOpts) (o : Oracle Gen.Move) (p : P) (m
   runList g p body (skipGen g mg r) (msAt3 g cfg (sortvOf o s) p mg #[] true).toList a
     (if (decide (mg.depth > 1) && !cfg.noSort) then { s with sorts := s.sorts + 1 } else s)
 
-theorem stage3_T3 (g : Game P Gen.Move) (cfg : SOpts) (o : Oracle Gen.Move) (p : P) (mg : MG Gen.Move)
+theorem stage3_eq_stage3R (g : Game P Gen.Move) (cfg : SOpts) (o : Oracle Gen.Move) (p : P) (mg : MG Gen.Move)
     (body : Gen.Move → P → σ → Eng Gen.Move → Except Tak.Err (Ctl σ ρ × Eng Gen.Move)) (r? : Option Gen.Move) (a : σ) (s : Eng Gen.Move) :
     stage3 g cfg o p mg body r? a s = stage3R g cfg o p mg body (r?.getD g.zeroMove) a s := by
   unfold stage3 stage3R msAt3 sortvOf
@@ -368,14 +368,16 @@ theorem stage3_T3 (g : Game P Gen.Move) (cfg : SOpts) (o : Oracle Gen.Move) (p :
 theorem driveStep_spec3 (g : Game P Gen.Move) (hEq : g.moveEq = Gen.moveEqual) (cfg : SOpts) (o : Oracle Gen.Move) (p : P) (mg : MG Gen.Move)
     (body : Gen.Move → P → σ → Eng Gen.Move → Except Tak.Err (Ctl σ ρ × Eng Gen.Move)) (hply : mg.ply < 15)
     (hNoPanic : ∀ m e, g.apply p m = .error e → ∃ t, e = .illegal t) (r : Gen.Move) (N : Nat) (a : σ) (s : Eng Gen.Move)
+    (ms : Array Gen.Move) (b : Bool) (hms : msAt3 g cfg (sortvOf o s) p mg ms b = msAt3 g cfg (sortvOf o s) p mg #[] true)
     (hN : (msAt3 g cfg (sortvOf o s) p mg #[] true).size ≤ N) :
-    driveStep g cfg o p mg body N (spec3 g cfg (sortvOf o s) p mg #[] true r) true a s = stage3R g cfg o p mg body r a s := by
+    driveStep g cfg o p mg body N (spec3 g cfg (sortvOf o s) p mg ms b r) true a s = stage3R g cfg o p mg body r a s := by
   unfold stage3R spec3 listRes
+  rw [hms]
   generalize hL : msAt3 g cfg (sortvOf o s) p mg #[] true = L at hN
   generalize hs3 : (if (decide (mg.depth > 1) && !cfg.noSort) then { s with sorts := s.sorts + 1 } else s) = s3
   have e0 : L.toList = L.toList.drop 0 := rfl
   rw [e0, scan_runList g p mg r L body hNoPanic a s3 L.size 0 rfl]
-  simp only [Nat.sub_zero, if_true]
+  simp only [Nat.sub_zero]
   rcases ht : scan g p mg r L (L.size + 1) 0 with ⟨m, oc, k⟩
   have ge : decide ((5 : Int) + (k : Int) ≥ 5) = true := by simp; omega
   simp only [driveStep, ge, Bool.true_and, hs3]
@@ -390,7 +392,7 @@ theorem driveStep_spec3 (g : Game P Gen.Move) (hEq : g.moveEq = Gen.moveEqual) (
     · cases ctl with
       | next a' =>
         simp only; rw [e]
-        exact driveNext_list g hEq cfg o p mg body hply hNoPanic L false r (L.size - (k + 1)) (k + 1) N a' s'' rfl (by omega)
+        exact driveNext_list g hEq cfg o p mg body hply hNoPanic L _ r (L.size - (k + 1)) (k + 1) N a' s'' rfl (by omega)
       | brk a' => rfl
       | ret x => rfl
 
@@ -423,38 +425,42 @@ variable (g : Game P Gen.Move) (hEq : g.moveEq = Gen.moveEqual) (hzero : g.zeroM
   (hply : mg.ply < 15) (hNoPanic : ∀ m e, g.apply p m = .error e → ∃ t, e = .illegal t)
   (hord : ∀ k l, (o.order k l).length ≤ l.length)
   (hbody : ∀ m c a s x, s.stackM.size = 15 → body m c a s = .ok x → x.2.stackM.size = 15)
-include hEq hply hNoPanic hord
+  (ms : Array Gen.Move) (b : Bool) (hms : ∀ sortv, msAt3 g cfg sortv p mg ms b = msAt3 g cfg sortv p mg #[] true)
+  (r0 : Gen.Move) (hr0 : mg.ply = 0 → r0 = default)
+include hEq hply hNoPanic hord hms
 
 theorem driveNext_at3 (r : Gen.Move) (N : Nat) (a : σ) (s : Eng Gen.Move) (hN : (g.allMoves p).length + 1 ≤ N) :
-    driveNext g cfg o p mg body N ((3 : Int), #[], true, r) a s = stage3R g cfg o p mg body r a s := by
+    driveNext g cfg o p mg body N ((3 : Int), ms, b, r) a s = stage3R g cfg o p mg body r a s := by
   obtain ⟨N', rfl⟩ : ∃ N', N = N' + 1 := ⟨N - 1, by omega⟩
   have hL := msAt3_size g cfg o p mg s hord
+  rw [← hms] at hL
   rw [driveNext_succ]
   dsimp only
-  rw [next_of_genLoop g cfg (sortvOf o s) p mg s 3 #[] true r _
-    (genLoop_spec3 g hEq cfg (sortvOf o s) p mg s hply _ #[] true r (by simp; omega))]
-  exact driveStep_spec3 g hEq cfg o p mg body hply hNoPanic r N' a s (by omega)
+  rw [next_of_genLoop g cfg (sortvOf o s) p mg s 3 ms b r _
+    (genLoop_spec3 g hEq cfg (sortvOf o s) p mg s hply _ ms b r (by simp; omega))]
+  exact driveStep_spec3 g hEq cfg o p mg body hply hNoPanic r N' a s ms b (hms _) (by rw [← hms]; omega)
 
-include hzero
+include hzero hr0
 
 theorem driveStep_spec2 (N : Nat) (a : σ) (s : Eng Gen.Move) (hN : (g.allMoves p).length + 1 ≤ N) (hst : s.stackM.size = 15) :
-    driveStep g cfg o p mg body N (spec2 g cfg (sortvOf o s) p mg s #[] true default) true a s = stage23 g cfg o p mg body a s := by
+    driveStep g cfg o p mg body N (spec2 g cfg (sortvOf o s) p mg s ms b r0) true a s = stage23 g cfg o p mg body a s := by
   have hL := msAt3_size g cfg o p mg s hord
-  have h3 := fun r => driveStep_spec3 g hEq cfg o p mg body hply hNoPanic r N a s (by omega)
+  rw [← hms] at hL
+  have h3 := fun r => driveStep_spec3 g hEq cfg o p mg body hply hNoPanic r N a s ms b (hms _) (by rw [← hms]; omega)
   unfold spec2 stage23 respLookup
   by_cases hp : mg.ply = 0
   · have e : (mg.ply == 0) = true := by simp [hp]
-    simp only [if_pos hp, e, if_true, h3, Ctl.andThen, stage3_T3, Option.getD_none, hzero]
+    simp only [if_pos hp, e, if_true, h3, Ctl.andThen, stage3_eq_stage3R, Option.getD_none, hzero, hr0 hp]
   · have e : (mg.ply == 0) = false := by simp [hp]
     simp only [if_neg hp, e, Bool.false_eq_true, if_false, getA_getD s.stackM (mg.ply - 1) _ (by omega)]
     cases respGet s.response (s.stackM.getD (mg.ply - 1) default) with
-    | none => simp only [h3, Ctl.andThen, stage3_T3, Option.getD_none, hzero]
+    | none => simp only [h3, Ctl.andThen, stage3_eq_stage3R, Option.getD_none, hzero]
     | some r' =>
       simp only [tryMove]
       cases ha : g.apply p r' with
       | error er =>
         obtain ⟨t, rfl⟩ := hNoPanic _ _ ha
-        simp only [h3, Ctl.andThen, stage3_T3, Option.getD_some]
+        simp only [h3, Ctl.andThen, stage3_eq_stage3R, Option.getD_some]
       | ok c =>
         have ge : decide ((3 : Int) ≥ 5) = false := by decide
         simp only [driveStep, ge, Bool.and_false, Bool.false_and, Bool.false_eq_true, if_false, Ctl.andThen]
@@ -462,27 +468,28 @@ theorem driveStep_spec2 (N : Nat) (a : σ) (s : Eng Gen.Move) (hN : (g.allMoves 
         · rfl
         · cases ctl with
           | next a' =>
-            simp only [stage3_T3, Option.getD_some]
-            exact driveNext_at3 g hEq cfg o p mg body hply hNoPanic hord r' N a' s'' hN
+            simp only [stage3_eq_stage3R, Option.getD_some]
+            exact driveNext_at3 g hEq cfg o p mg body hply hNoPanic hord ms b hms r' N a' s'' hN
           | brk a' => rfl
           | ret x => rfl
 
 theorem driveNext_at2 (N : Nat) (a : σ) (s : Eng Gen.Move) (hN : (g.allMoves p).length + 2 ≤ N) (hst : s.stackM.size = 15) :
-    driveNext g cfg o p mg body N ((2 : Int), #[], true, default) a s = stage23 g cfg o p mg body a s := by
+    driveNext g cfg o p mg body N ((2 : Int), ms, b, r0) a s = stage23 g cfg o p mg body a s := by
   obtain ⟨N', rfl⟩ : ∃ N', N = N' + 1 := ⟨N - 1, by omega⟩
   have hL := msAt3_size g cfg o p mg s hord
+  rw [← hms] at hL
   rw [driveNext_succ]
   dsimp only
-  rw [next_of_genLoop g cfg (sortvOf o s) p mg s 2 #[] true default _
-    (genLoop_spec2 g hEq cfg (sortvOf o s) p mg s hply _ #[] true default (by simp; omega))]
-  exact driveStep_spec2 g hEq hzero cfg o p mg body hply hNoPanic hord N' a s (by omega) hst
+  rw [next_of_genLoop g cfg (sortvOf o s) p mg s 2 ms b r0 _
+    (genLoop_spec2 g hEq cfg (sortvOf o s) p mg s hply _ ms b r0 (by simp; omega))]
+  exact driveStep_spec2 g hEq hzero cfg o p mg body hply hNoPanic hord ms b hms r0 hr0 N' a s (by omega) hst
 
 include hbody
 
 theorem driveStep_spec1 (N : Nat) (a : σ) (s : Eng Gen.Move) (hN : (g.allMoves p).length + 2 ≤ N) (hst : s.stackM.size = 15) :
-    driveStep g cfg o p mg body N (spec1 g cfg (sortvOf o s) p mg s #[] true default) true a s =
+    driveStep g cfg o p mg body N (spec1 g cfg (sortvOf o s) p mg s ms b r0) true a s =
       Ctl.andThen (stage1 g p mg body a s) (stage23 g cfg o p mg body) := by
-  have h2 := driveStep_spec2 g hEq hzero cfg o p mg body hply hNoPanic hord N a s (by omega) hst
+  have h2 := driveStep_spec2 g hEq hzero cfg o p mg body hply hNoPanic hord ms b hms r0 hr0 N a s (by omega) hst
   unfold spec1 stage1
   cases mg.pv with
   | nil => simp only [h2, Ctl.andThen]
@@ -502,26 +509,27 @@ theorem driveStep_spec1 (N : Nat) (a : σ) (s : Eng Gen.Move) (hN : (g.allMoves 
         · cases ctl with
           | next a' =>
             simp only
-            exact driveNext_at2 g hEq hzero cfg o p mg body hply hNoPanic hord N a' s'' hN (hbody _ _ _ _ _ hst hb)
+            exact driveNext_at2 g hEq hzero cfg o p mg body hply hNoPanic hord ms b hms r0 hr0 N a' s'' hN (hbody _ _ _ _ _ hst hb)
           | brk a' => rfl
           | ret x => rfl
     · simp only [if_true, h2, Ctl.andThen]
 
 theorem driveNext_at1 (N : Nat) (a : σ) (s : Eng Gen.Move) (hN : (g.allMoves p).length + 3 ≤ N) (hst : s.stackM.size = 15) :
-    driveNext g cfg o p mg body N ((1 : Int), #[], true, default) a s =
+    driveNext g cfg o p mg body N ((1 : Int), ms, b, r0) a s =
       Ctl.andThen (stage1 g p mg body a s) (stage23 g cfg o p mg body) := by
   obtain ⟨N', rfl⟩ : ∃ N', N = N' + 1 := ⟨N - 1, by omega⟩
   have hL := msAt3_size g cfg o p mg s hord
+  rw [← hms] at hL
   rw [driveNext_succ]
   dsimp only
-  rw [next_of_genLoop g cfg (sortvOf o s) p mg s 1 #[] true default _
-    (genLoop_spec1 g hEq cfg (sortvOf o s) p mg s hply _ #[] true default (by simp; omega))]
-  exact driveStep_spec1 g hEq hzero cfg o p mg body hply hNoPanic hord hbody N' a s (by omega) hst
+  rw [next_of_genLoop g cfg (sortvOf o s) p mg s 1 ms b r0 _
+    (genLoop_spec1 g hEq cfg (sortvOf o s) p mg s hply _ ms b r0 (by simp; omega))]
+  exact driveStep_spec1 g hEq hzero cfg o p mg body hply hNoPanic hord hbody ms b hms r0 hr0 N' a s (by omega) hst
 
 theorem driveStep_spec0 (N : Nat) (a : σ) (s : Eng Gen.Move) (hN : (g.allMoves p).length + 3 ≤ N) (hst : s.stackM.size = 15) :
-    driveStep g cfg o p mg body N (spec0 g cfg (sortvOf o s) p mg s #[] true default) true a s =
+    driveStep g cfg o p mg body N (spec0 g cfg (sortvOf o s) p mg s ms b r0) true a s =
       Ctl.andThen (stage0 g p mg body a s) (fun a s => Ctl.andThen (stage1 g p mg body a s) (stage23 g cfg o p mg body)) := by
-  have h1 := driveStep_spec1 g hEq hzero cfg o p mg body hply hNoPanic hord hbody N a s (by omega) hst
+  have h1 := driveStep_spec1 g hEq hzero cfg o p mg body hply hNoPanic hord hbody ms b hms r0 hr0 N a s (by omega) hst
   unfold spec0 stage0
   cases mg.te with
   | none => simp only [h1, Ctl.andThen]
@@ -539,19 +547,20 @@ theorem driveStep_spec0 (N : Nat) (a : σ) (s : Eng Gen.Move) (hN : (g.allMoves 
       · cases ctl with
         | next a' =>
           simp only
-          exact driveNext_at1 g hEq hzero cfg o p mg body hply hNoPanic hord hbody N a' s'' hN (hbody _ _ _ _ _ hst hb)
+          exact driveNext_at1 g hEq hzero cfg o p mg body hply hNoPanic hord hbody ms b hms r0 hr0 N a' s'' hN (hbody _ _ _ _ _ hst hb)
         | brk a' => rfl
         | ret x => rfl
 
 theorem driveNext_at0 (N : Nat) (a : σ) (s : Eng Gen.Move) (hN : (g.allMoves p).length + 4 ≤ N) (hst : s.stackM.size = 15) :
-    driveNext g cfg o p mg body N ((0 : Int), #[], true, default) a s = iterate g cfg o p mg body a s := by
+    driveNext g cfg o p mg body N ((0 : Int), ms, b, r0) a s = iterate g cfg o p mg body a s := by
   obtain ⟨N', rfl⟩ : ∃ N', N = N' + 1 := ⟨N - 1, by omega⟩
   have hL := msAt3_size g cfg o p mg s hord
+  rw [← hms] at hL
   rw [driveNext_succ]
   dsimp only
-  rw [next_of_genLoop g cfg (sortvOf o s) p mg s 0 #[] true default _
-    (genLoop_spec0 g hEq cfg (sortvOf o s) p mg s hply _ #[] true default (by simp; omega))]
-  refine (driveStep_spec0 g hEq hzero cfg o p mg body hply hNoPanic hord hbody N' a s (by omega) hst).trans ?_
+  rw [next_of_genLoop g cfg (sortvOf o s) p mg s 0 ms b r0 _
+    (genLoop_spec0 g hEq cfg (sortvOf o s) p mg s hply _ ms b r0 (by simp; omega))]
+  refine (driveStep_spec0 g hEq hzero cfg o p mg body hply hNoPanic hord hbody ms b hms r0 hr0 N' a s (by omega) hst).trans ?_
   unfold iterate
   cases stage0 g p mg body a s with
   | error e => rfl
@@ -574,7 +583,28 @@ never runs out of its whitelist fuel on these inputs.  So the move enumeration o
 `Impl/Minimax.lean` (all through `iterate`) is tied to `ai/moves.go` by proof. -/
 theorem next_iterate : next_iterate_statement (P := P) := by
   intro σ ρ g cfg o p mg body a s hEq hzero hply hst hNoPanic hord hbody
-  exact driveNext_at0 g hEq hzero cfg o p mg body hply hNoPanic hord hbody _ a s (by omega) hst
+  exact driveNext_at0 g hEq hzero cfg o p mg body hply hNoPanic hord hbody #[] true (fun _ => rfl) default (fun _ => rfl) _ a s (by omega) hst
+
+/-- **the second enumeration** (`mg.Reset()` after the multi-cut loop of `zwSearch` sets `i = 0` only; `mg.ms` and `mg.r` are what the
+first enumeration left): driving the regenerated `Next` from such a state is again the model's `iterate` (which re-reads `AllMoves`),
+whenever `case 3` installs the list the model uses - the cache is still nil, or nothing is sorted (`depth ≤ 1` or `NoSort`) and the
+cache holds `AllMoves` (this is exactly the approximation `Impl/MoveGen.lean` declares) - and the remembered response move is the
+zero move at ply 0 (elsewhere `case 2` reassigns it before it is read). -/
+theorem next_iterate_restart {σ ρ : Type} (g : Game P Gen.Move) (cfg : SOpts) (o : Oracle Gen.Move) (p : P) (mg : MG Gen.Move)
+    (body : Gen.Move → P → σ → Eng Gen.Move → Except Tak.Err (Ctl σ ρ × Eng Gen.Move)) (a : σ) (s : Eng Gen.Move)
+    (hEq : g.moveEq = Gen.moveEqual) (hzero : g.zeroMove = default) (hply : mg.ply < 15) (hst : s.stackM.size = 15)
+    (hNoPanic : ∀ m e, g.apply p m = .error e → ∃ t, e = .illegal t) (hord : ∀ k l, (o.order k l).length ≤ l.length)
+    (hbody : ∀ m c a s x, s.stackM.size = 15 → body m c a s = .ok x → x.2.stackM.size = 15)
+    (ms : Array Gen.Move) (b : Bool) (r0 : Gen.Move)
+    (hms : b = true ∨ ((decide (mg.depth > 1) && !cfg.noSort) = false ∧ b = false ∧ ms = (g.allMoves p).toArray))
+    (hr0 : mg.ply = 0 → r0 = default) :
+    driveNext g cfg o p mg body ((g.allMoves p).length + 5) (0, ms, b, r0) a s = iterate g cfg o p mg body a s := by
+  refine driveNext_at0 g hEq hzero cfg o p mg body hply hNoPanic hord hbody ms b ?_ r0 hr0 _ a s (by omega) hst
+  intro sortv
+  rcases hms with rfl | ⟨h1, rfl, rfl⟩
+  · rfl
+  · unfold msAt3
+    simp [h1]
 
 /-- a one-move game on `Nat` "positions" (every move accepted, the position unchanged) -/
 def toyGame : Game Nat Gen.Move :=
@@ -601,6 +631,15 @@ example : toyCount (driveNext toyGame {} Oracle.quiet 0 ⟨0, 2, some ⟨0#64, 0
   have e := next_iterate Nat Unit toyGame {} Oracle.quiet 0
     ⟨0, 2, some ⟨0#64, 0, { X := 1, Y := 0, Type_ := 2#8, Slides := 0#32 }, 0, 0⟩, []⟩ toyBody 0 toyEng rfl rfl (by decide) (by decide)
     (by intro m e h; cases h) (by intro k l; exact Nat.le_refl _) (by intro m c a s x h hb; cases hb; exact h)
+  exact (congrArg toyCount e).trans (by decide)
+
+/-- a concrete instance of `next_iterate_restart`: ply 1, `NoSort`, the cache holds `AllMoves`, a stale remembered move -/
+example : toyCount (driveNext toyGame { noSort := true } Oracle.quiet 0 ⟨1, 2, none, []⟩ toyBody 6
+    (0, #[{ X := 1, Y := 0, Type_ := 2#8, Slides := 0#32 }], false, { X := 2, Y := 2, Type_ := 2#8, Slides := 0#32 }) 0 toyEng) = some (1, 0) := by
+  have e := next_iterate_restart toyGame { noSort := true } Oracle.quiet 0 ⟨1, 2, none, []⟩ toyBody 0 toyEng rfl rfl (by decide) (by decide)
+    (by intro m e h; cases h) (by intro k l; exact Nat.le_refl _) (by intro m c a s x h hb; cases hb; exact h)
+    #[{ X := 1, Y := 0, Type_ := 2#8, Slides := 0#32 }] false { X := 2, Y := 2, Type_ := 2#8, Slides := 0#32 }
+    (Or.inr ⟨by decide, rfl, rfl⟩) (by decide)
   exact (congrArg toyCount e).trans (by decide)
 
 /-- **why `hord` is needed**: with an ordering oracle that lengthens the list (7 copies), `len(AllMoves) + 5 = 6` calls of `Next` end in
@@ -665,5 +704,14 @@ theorem next_iterate_getMove (cfg' : Cfg) (o' : Oracle Gen.Move) (depth : Int) (
   next_iterate _ _ g cfg o p mg _ a s hEq hzero hply hst hNoPanic hord (hbody_of_frBody (gmBody_fr g cfg' o' depth rest v base))
 
 end searchBodies
+
+/-- a concrete instance of `next_iterate_zwSearch` (the hypotheses are satisfiable: the toy game, a fresh engine, the quiet oracle) -/
+example (a : ZwAcc Gen.Move) :
+    driveNext toyGame {} Oracle.quiet 0 ⟨1, 2, none, []⟩ (zwBody Oracle.quiet (search toyGame {} Oracle.quiet 3).2 1 2 0 false) 6
+        (0, #[], true, default) a toyEng =
+      iterate toyGame {} Oracle.quiet 0 ⟨1, 2, none, []⟩ (zwBody Oracle.quiet (search toyGame {} Oracle.quiet 3).2 1 2 0 false) a toyEng :=
+  next_iterate_zwSearch toyGame {} Oracle.quiet 0 ⟨1, 2, none, []⟩ toyEng rfl rfl (by decide) (by decide) (by intro m e h; cases h)
+    (by intro k l; exact Nat.le_refl _) {} Oracle.quiet Oracle.quiet 3 1 2 0 false a
+
 
 end C05
